@@ -19,4 +19,5 @@ def run(ctx):
     atomics.M3(ctx)
     atomics.M4(ctx)
     atomics.M5(ctx)
+    atomics.M5b(ctx)
     atomics.M6(ctx)
